@@ -63,10 +63,10 @@ class GeckoPacketProtocolHandler(GeckoUdpProtocolHandler):
             b"".join(
                 [
                     SRCCN_OPEN,
-                    b"(.*)",
+                    b"(.*?)",
                     SRCCN_CLOSE,
                     DESCN_OPEN,
-                    b"(.*)",
+                    b"(.*?)",
                     DESCN_CLOSE,
                     DATAS_OPEN,
                     b"(.*)",
